@@ -1,5 +1,7 @@
 import Qryn.Proofs.Migrate
+import Qryn.Proofs.MigrateParams
 import Qryn.Gen.Migrations
+import Qryn.Gen.CtrlFlow
 /-! # C18 — schema initialisation survives failure at any statement and can simply be re-run
 
 The model is `Qryn.Ctrl.Migrate` (`InitDBTry` + `Update`/`updateScripts` over a catalogue with ClickHouse's
@@ -153,5 +155,210 @@ example : ¬ Rerunnable (.alter 1 [.addColumn 2 false]) := by
   intro h
   have := h ⟨true, [⟨1, .table, [], 0, 0⟩]⟩ ⟨true, [⟨1, .table, [2], 0, 0⟩]⟩ (by rfl)
   revert this; simp [exec, Cat.find, hasName, applyOps, applyOp]
+
+/-! # The cluster: N nodes, `ON CLUSTER` applied node by node, any connection, every parameter instance
+
+Model `Qryn.Ctrl.MigrateCluster`: every node has its own catalogue and its own `ver` table; a statement whose
+instantiated text carries `ON CLUSTER` (regenerated per statement: `Gen.Migrations.*_oc`) is executed by every node
+independently, any other statement by the connected node only; with a configured cluster versions are read from
+`ver_dist` = the `ver` rows of ALL nodes; every start may be connected to another node; a failure point is a call +
+the set of nodes on which it still took effect + killed/error. `InitDB` is inside with its own control flow: the error
+of `CREATE DATABASE` is overwritten by `SHOW CREATE DATABASE`'s. `cprog m skip` is what `ctrl.Init` does for one
+database in mode `m` (`skip`: the database is `default`/unnamed and `InitDB` returns at once), `.mapBody g` is the same
+under an arbitrary parameter instance (see `params_enter_text_only`). -/
+
+/-- the cluster program is the single-catalogue program plus `ON CLUSTER` flags (kernel-evaluated) -/
+theorem cprog_is_prog (m : Mode) : (cprog m false).toProg = prog m ∧ (cprog m true).toProg = (prog m).tail := by
+  cases m <;> decide +kernel
+
+/-- **Which statements carry `ON CLUSTER`** (kernel-evaluated over the regenerated flags, all four modes, with and
+    without `InitDB`): with a configured cluster EVERY statement that can change a catalogue carries it — only the
+    `INSERT`s do not —, `CREATE DATABASE` is issued by `InitDBTry` alone and is guarded, and the first statement of
+    `Update` goes to every node; without a cluster no statement carries it. On the pinned tree this is false: the eight
+    `type_v2` ALTERs of log.sql / log_dist.sql had no `{{.OnCluster}}` (`pinned_tree_counterexample`). -/
+theorem cluster_table_criteria (m : Mode) (skip : Bool) : (cprog m skip).wfB = true := by
+  cases m <;> cases skip <;> decide +kernel
+
+/-- the single-catalogue criteria for what a node experiences when `InitDB` is skipped -/
+theorem prog_criteria_skip (m : Mode) : wfB (cprog m true).toProg = true := by
+  cases m <;> decide +kernel
+
+/-- **Template parameters only change text.** Re-instantiating every bootstrap statement and every script of every
+    mode with each template variable varied alone over the forms `updateScripts` can assign (`tplAlternatives`:
+    ttl days incl. negative and 2³¹−1, storage policy absent/present, ordering variants, `skip_unavailable_shards`,
+    cluster and database names, engine families) changes, for every variable but `OnCluster`, nothing except the
+    identity of the text of `CREATE` statements (`shapeVars`); `DefaultTtlDays` is set but used by no statement; every
+    variable a statement uses is one `updateScripts` sets. Hence a parameter instance is a re-numbering `g` of text
+    identities (`mapBody g`), and `OnCluster` is the mode. -/
+theorem params_enter_text_only :
+    shapeVars = ["OnCluster"] ∧ shapeVarsWhere = [] ∧ tplUnused = ["DefaultTtlDays"] ∧
+    (tplUses.all fun u => u.2.all fun v => tplVars.contains v) = true := by
+  decide +kernel
+
+/-- the criteria do not depend on the parameter instance -/
+theorem param_wf (m : Mode) (skip : Bool) (g : Nat → Nat) :
+    CWf ((cprog m skip).mapBody g) ∧ WF ((cprog m skip).mapBody g).toProg := by
+  constructor
+  · exact cwf_of_wfB _ (by rw [cwfB_mapBody]; exact cluster_table_criteria m skip)
+  · apply wf_of_wfB
+    rw [toProg_mapBody, wfB_mapBody]
+    cases skip
+    · rw [(cprog_is_prog m).1]; exact prog_criteria m
+    · exact prog_criteria_skip m
+
+/-- **`InitDB`, `ctrl.Init` as the model reads them** (re-extracted statement by statement): `InitDB` returns at once
+    for the database `""`/`default`; otherwise it calls `InitDBTry` (one `CREATE DATABASE IF NOT EXISTS … [ON CLUSTER]`,
+    `Gen.Migrations.createDb`), assigns its error to `err` and — without looking at it — overwrites `err` with the
+    result of `SHOW CREATE DATABASE`, whose error it returns; `ctrl.Init` panics on that error and otherwise goes on
+    to `UpgradeAll`. `cstart`'s first two calls are this. -/
+theorem initdb_shape :
+    Qryn.Gen.CtrlFlow.initDB =
+      ["if dbObject.Name == \"\" || dbObject.Name == \"default\" { return nil }",
+       "conn, err := maintenance.ConnectV2(dbObject, false)",
+       "if err != nil { return err }",
+       "defer conn.Close()",
+       "err = maintenance.InitDBTry(conn, dbObject.ClusterName, dbObject.Name, dbObject.Cloud, logger)",
+       "rows, err := conn.Query(maintenance.MakeTimeout(), fmt.Sprintf(\"SHOW CREATE DATABASE `%s`\", dbObject.Name))",
+       "if err != nil { return err }",
+       "defer rows.Close()",
+       "rows.Next()",
+       "var create string",
+       "err = rows.Scan(&create)",
+       "if err != nil { return err }",
+       "logger.Info(create)",
+       "return nil"] ∧
+    Qryn.Gen.CtrlFlow.initDBTry =
+      ["engine := \"\"", "onCluster := \"\"",
+       "if clusterName != \"\" { onCluster = fmt.Sprintf(\"ON CLUSTER `%s`\", clusterName) }",
+       "query := fmt.Sprintf(\"CREATE DATABASE IF NOT EXISTS `%s` %s %s\", dbName, onCluster, engine)",
+       "logger.Info(\"Creating database: \", query)",
+       "err := conn.Exec(MakeTimeout(), query)",
+       "if err == nil { return nil }",
+       "return err"] ∧
+    Qryn.Gen.CtrlFlow.ctrlInit =
+      ["var err error", "proj, ok := projects[project]",
+       "if !ok { return fmt.Errorf(\"project %s not found\", project) }",
+       "for _, db := range config.Setting.DATABASE_DATA { err = proj.init(&db, logger.Logger) if err != nil { panic(err) } }",
+       "err = proj.upgrade(config.Setting.DATABASE_DATA, logger.Logger)",
+       "return err"] ∧
+    Qryn.Gen.CtrlFlow.project = ["maintenance.InitDB", "maintenance.UpgradeAll", "maintenance.RotateAll"] ∧
+    Qryn.Gen.CtrlFlow.connectAddr = "[]string{fmt.Sprintf(\"%s:%d\", dbObject.Host, dbObject.Port)}" := by
+  refine ⟨rfl, rfl, rfl, rfl, rfl⟩
+
+/-- **Where the version is read from** (re-extracted): `ver` without a cluster, `ver_dist` — the rows of all nodes —
+    with one (`CProg.dist`); the version row is always written to the connected node's `ver` (`loop_shape`). -/
+theorem version_read_tables : verTables = ["ver", "ver_dist"] := rfl
+
+/-- **cluster_start_refines.** For every mode, every parameter instance, every cluster of any size in any state,
+    every connection and every failure point (any call, taking effect on any set of nodes, killed or error): on every
+    node that takes part (the connected node; with a configured cluster every node) whose own single-catalogue start
+    would succeed, the state the cluster start leaves behind is one of the states that node's OWN start can be stopped
+    in (`points`). So everything proved about restarting a single catalogue holds node by node. -/
+theorem cluster_start_refines (m : Mode) (skip : Bool) (g : Nat → Nat) (cl : Cluster) (conn : Nat) (f : Option CFault) (i : Nat)
+    (hi : i < cl.n) (hpart : i = conn ∨ isDist m = true) (fin : Db)
+    (h : run ((cprog m skip).mapBody g).toProg (view (isDist m) cl i) = .ok fin) :
+    view (isDist m) (cstart ((cprog m skip).mapBody g) cl conn f).cl i ∈
+      points ((cprog m skip).mapBody g).toProg (view (isDist m) cl i) :=
+  cstart_points _ (param_wf m skip g).1 cl conn f i ⟨hi, hpart⟩ fin h
+
+/-- **cluster_start_converges.** Mode `m`, `InitDB` skipped or not, ANY parameter instance `g`, a cluster of ANY size
+    `cl.n` in any state in which every node's own uninterrupted start would succeed (ending in `fin i` on node `i`; the
+    nodes need not be alike): after ANY sequence of starts — each connected to any node (or to none), each either
+    uninterrupted or stopped at any call (of `InitDB` or `Update`) after that call took effect on any set of nodes,
+    by a kill or by an error — one more uninterrupted start, connected to any node `conn`, completes, and it leaves
+    EVERY node that takes part exactly at `fin i`: catalogue and visible version rows. With a configured cluster
+    (`isDist m`) that is every node of the cluster; without one, the node connected to (the others are untouched:
+    `local_start_frame`). -/
+theorem cluster_start_converges (m : Mode) (skip : Bool) (g : Nat → Nat) (cl : Cluster) (fin : Nat → Db)
+    (h : ∀ i, i < cl.n → run ((cprog m skip).mapBody g).toProg (view (isDist m) cl i) = .ok (fin i))
+    (sch : List (Nat × Option CFault)) (conn : Nat) (hc : conn < cl.n) :
+    (cstart ((cprog m skip).mapBody g) (csched ((cprog m skip).mapBody g) cl sch) conn none).status = .done ∧
+    ∀ i, i < cl.n → (i = conn ∨ isDist m = true) →
+      view (isDist m) (cstart ((cprog m skip).mapBody g) (csched ((cprog m skip).mapBody g) cl sch) conn none).cl i = fin i := by
+  obtain ⟨a, b⟩ := csched_converges _ (param_wf m skip g).1 (param_wf m skip g).2 cl fin h sch conn hc
+  exact ⟨a, fun i hi hp => b i ⟨hi, hp⟩⟩
+
+/-- **Every node ends in the same schema.** A cluster whose nodes start alike (same catalogue on every node — a fresh
+    cluster, or one an older release initialised everywhere; the version rows may live on any nodes) ends, after any
+    sequence of failed starts and one uninterrupted start, with the SAME catalogue on every node: that of the
+    uninterrupted single-catalogue start. -/
+theorem cluster_nodes_agree (m : Mode) (hd : isDist m = true) (skip : Bool) (g : Nat → Nat) (cl : Cluster) (c0 : Cat)
+    (hsame : ∀ i, i < cl.n → cl.cat i = c0) (fin : Db)
+    (h : run ((cprog m skip).mapBody g).toProg ⟨c0, visible true 0 cl.rows⟩ = .ok fin)
+    (sch : List (Nat × Option CFault)) (conn : Nat) (hc : conn < cl.n) :
+    ∀ i, i < cl.n →
+      (cstart ((cprog m skip).mapBody g) (csched ((cprog m skip).mapBody g) cl sch) conn none).cl.cat i = fin.cat := by
+  intro i hi
+  have hv : ∀ j, j < cl.n → view (isDist m) cl j = ⟨c0, visible true 0 cl.rows⟩ := by
+    intro j hj
+    rw [hd]
+    simp only [view, hsame j hj, visible, Bool.true_or]
+  have := (cluster_start_converges m skip g cl (fun _ => fin) (fun j hj => by rw [hv j hj]; exact h) sch conn hc).2 i hi (Or.inr hd)
+  exact congrArg Db.cat this
+
+/-- without a configured cluster a start leaves the nodes it is not connected to exactly as they were -/
+theorem local_start_frame (m : Mode) (hd : isDist m = false) (skip : Bool) (g : Nat → Nat) (cl : Cluster) (conn : Nat)
+    (f : Option CFault) (i : Nat) (hi : i ≠ conn) :
+    view false (cstart ((cprog m skip).mapBody g) cl conn f).cl i = view false cl i :=
+  cstart_frame _ (by simp [CProg.mapBody, cprog, hd]) (good_noOc (param_wf m skip g).1 (by simp [CProg.mapBody, cprog, hd])) cl conn f i hi
+
+/-- **A version row is written only after EVERY node executed its script**: in the version loop of a cluster start
+    the call in front of `INSERT INTO ver (k, v)` is script `v − 1` of stream `k`, it succeeded on every node it was
+    sent to, and the row is written in the state that left. -/
+theorem cluster_version_sound (conn k : Nat) (l : List CStmt) (i0 : Nat) (cl : Cluster) (j : Nat) (cl' : Cluster) (k' v' : Nat)
+    (h : (cloopSteps conn k l i0 cl)[j]? = some (cl', .record k' v')) :
+    ∃ j0 cl0 s, j = j0 + 1 ∧ (cloopSteps conn k l i0 cl)[j0]? = some (cl0, .script k' (v' - 1) s) ∧ 1 ≤ v' ∧
+      okAll cl0.n conn s cl0.cat = true ∧ cl' = { cl0 with cat := stepCat cl0.n conn allSel s cl0.cat } :=
+  cloop_record_after_all conn k l i0 cl j cl' k' v' h
+
+/-- **Up to date ⇒ no migration call, on a cluster too**: when the version rows the connected node reads are at the
+    end of every stream (and its own start would succeed), the `Update` part of a cluster start issues no script and
+    no version row. -/
+theorem cluster_uptodate_noop (m : Mode) (g : Nat → Nat) (cl : Cluster) (conn : Nat) (hc : conn < cl.n) (fin : Db)
+    (hJ : run (((cprog m true).mapBody g).phases.map CPhase.toPhase) (view (isDist m) cl conn) = .ok fin)
+    (hup : UpToDate (((cprog m true).mapBody g).phases.map CPhase.toPhase) (view (isDist m) cl conn).vers) :
+    ∀ st ∈ csteps (isDist m) conn ((cprog m true).mapBody g).phases cl, st.2.toCall.isMigration = false :=
+  csteps_uptodate _ cl rfl hc (good_phases (param_wf m true g).1) fin hJ hup
+
+/-- non-vacuity: on a fresh cluster of any size every node's own start succeeds (default parameters) -/
+theorem cluster_fresh_start_succeeds (m : Mode) (N : Nat) :
+    ∀ i, i < N → ∃ fin, run ((cprog m false).mapBody id).toProg (view (isDist m) (emptyCluster N) i) = .ok fin := by
+  intro i _
+  have hv : view (isDist m) (emptyCluster N) i = emptyDb := by simp [view, emptyCluster, visible, emptyDb]
+  rw [hv]
+  have h : (match run ((cprog m false).mapBody id).toProg emptyDb with | .ok _ => true | .error _ => false) = true := by
+    cases m <;> decide +kernel
+  cases hr : run ((cprog m false).mapBody id).toProg emptyDb with
+  | ok fin => exact ⟨fin, rfl⟩
+  | error e => simp [hr] at h
+
+/-! ## the pinned tree: `ALTER … ADD COLUMN type_v2` without `ON CLUSTER` -/
+
+/-- `ALTER TABLE t (ADD COLUMN IF NOT EXISTS type_v2 …)` -/
+def isTypeV2 : Stmt → Bool
+  | .alter _ [.addColumn c true] => names[c]? == some "type_v2"
+  | _ => false
+
+/-- the program of the pinned tree: the `type_v2` ALTERs carry no `ON CLUSTER` -/
+def pinned (P : CProg) : CProg :=
+  let f : CStmt → CStmt := fun s => if isTypeV2 s.stmt then { s with oc := false } else s
+  { P with phases := P.phases.map fun ph =>
+      ⟨ph.boot.map f, match ph.scripts with
+        | none => none
+        | some (k, ss) => some (k, ss.map f)⟩ }
+
+/-- **Counterexample for the pinned tree** (kernel-evaluated, no failure at all): on a fresh cluster of two nodes an
+    uninterrupted start connected to node 0 completes, and node 1 does NOT have node 0's catalogue — the eight `type_v2`
+    columns exist on the connected node only, for good (their versions are recorded). The criterion
+    `cluster_table_criteria` rejects that program. Fixed in the repository by adding `{{.OnCluster}}` to the eight
+    statements. -/
+theorem pinned_tree_counterexample :
+    (pinned (cprog .clustered false)).wfB = false ∧
+    (cstart (pinned (cprog .clustered false)) (emptyCluster 2) 0 none).status = .done ∧
+    (cstart (pinned (cprog .clustered false)) (emptyCluster 2) 0 none).cl.cat 1 ≠
+      (cstart (pinned (cprog .clustered false)) (emptyCluster 2) 0 none).cl.cat 0 ∧
+    (cstart (cprog .clustered false) (emptyCluster 2) 0 none).cl.cat 1 =
+      (cstart (cprog .clustered false) (emptyCluster 2) 0 none).cl.cat 0 := by
+  decide +kernel
 
 end Qryn.C18
